@@ -252,11 +252,11 @@ Definition wf_violations : list (pid * stmt * condition) :=
            (seq 0 (nprocs N)).
 End WithNet.
 
-(* the net in which Wait() on the wait group w is ASSUMED to return (used to state what
-   holds apart from a known violation): the statement is replaced by an Io step *)
-Fixpoint assumeS (w : wgid) (s : stmt) : stmt :=
+(* the net in which Wait() on a shared WaitGroup is ASSUMED to return (used to state what
+   holds apart from a known W4 violation): every WgWait is replaced by an Io step *)
+Fixpoint assumeS (s : stmt) : stmt :=
   match s with
-  | WgWait w' => if Nat.eqb w w' then Io PauseGate else s
+  | WgWait _ => Io PauseGate
   | Sel cs =>
       Sel ((fix fa (cs : list (alt * list stmt)) : list (alt * list stmt) :=
               match cs with
@@ -264,25 +264,136 @@ Fixpoint assumeS (w : wgid) (s : stmt) : stmt :=
               | c :: r =>
                   (let (a, bd) := c in
                    (a, (fix mp (l : list stmt) : list stmt :=
-                          match l with [] => [] | x :: t => assumeS w x :: mp t end) bd))
+                          match l with [] => [] | x :: t => assumeS x :: mp t end) bd))
                   :: fa r
               end) cs)
   | Branch a b =>
-      Branch ((fix mp (l : list stmt) : list stmt := match l with [] => [] | x :: t => assumeS w x :: mp t end) a)
-             ((fix mp (l : list stmt) : list stmt := match l with [] => [] | x :: t => assumeS w x :: mp t end) b)
+      Branch ((fix mp (l : list stmt) : list stmt := match l with [] => [] | x :: t => assumeS x :: mp t end) a)
+             ((fix mp (l : list stmt) : list stmt := match l with [] => [] | x :: t => assumeS x :: mp t end) b)
   | LoopCtx bd =>
-      LoopCtx ((fix mp (l : list stmt) : list stmt := match l with [] => [] | x :: t => assumeS w x :: mp t end) bd)
+      LoopCtx ((fix mp (l : list stmt) : list stmt := match l with [] => [] | x :: t => assumeS x :: mp t end) bd)
   | LoopRange c bd =>
-      LoopRange c ((fix mp (l : list stmt) : list stmt := match l with [] => [] | x :: t => assumeS w x :: mp t end) bd)
+      LoopRange c ((fix mp (l : list stmt) : list stmt := match l with [] => [] | x :: t => assumeS x :: mp t end) bd)
   | LoopData bd =>
-      LoopData ((fix mp (l : list stmt) : list stmt := match l with [] => [] | x :: t => assumeS w x :: mp t end) bd)
+      LoopData ((fix mp (l : list stmt) : list stmt := match l with [] => [] | x :: t => assumeS x :: mp t end) bd)
   | _ => s
   end.
-Definition assume_proc (w : wgid) (p : proc) : proc :=
-  {| body := map (assumeS w) (body p); finally := map (assumeS w) (finally p);
+Definition assume_proc (p : proc) : proc :=
+  {| body := map assumeS (body p); finally := map assumeS (finally p);
      defer_close := defer_close p; exit_cancel := exit_cancel p; rank := rank p |}.
-Definition assume_returns (w : wgid) (N : net) : net :=
-  {| procs_of := map (assume_proc w) (procs_of N); caps := caps N; senders := senders N |}.
+Definition assume_wg_returns (N : net) : net :=
+  {| procs_of := map assume_proc (procs_of N); caps := caps N; senders := senders N |}.
+
+(* ------------------------------------------------------------------------------- *)
+(* structural queries on skeletons *)
+
+(* all statements of a block, nested ones included *)
+Fixpoint flatS (s : stmt) : list stmt :=
+  s ::
+  match s with
+  | Sel cs =>
+      (fix fa (cs : list (alt * list stmt)) : list stmt :=
+         match cs with
+         | [] => []
+         | c :: r =>
+             (let (_, bd) := c in
+              (fix fl (l : list stmt) : list stmt := match l with [] => [] | x :: t => flatS x ++ fl t end) bd)
+             ++ fa r
+         end) cs
+  | Branch a b =>
+      (fix fl (l : list stmt) : list stmt := match l with [] => [] | x :: t => flatS x ++ fl t end) a ++
+      (fix fl (l : list stmt) : list stmt := match l with [] => [] | x :: t => flatS x ++ fl t end) b
+  | LoopCtx bd | LoopRange _ bd | LoopData bd =>
+      (fix fl (l : list stmt) : list stmt := match l with [] => [] | x :: t => flatS x ++ fl t end) bd
+  | _ => []
+  end.
+Definition flatL (l : list stmt) : list stmt := flat_map flatS l.
+Definition all_stmts (p : proc) : list stmt := flatL (body p) ++ flatL (finally p).
+
+Definition is_sel (s : stmt) : bool := match s with Sel _ => true | _ => false end.
+Definition is_range (s : stmt) : bool := match s with LoopRange _ _ => true | _ => false end.
+Definition is_sendonce (c : chan) (s : stmt) : bool := match s with SendOnce c' => Nat.eqb c c' | _ => false end.
+Definition is_recvclose (c : chan) (s : stmt) : bool := match s with RecvClose c' => Nat.eqb c c' | _ => false end.
+Definition count (f : stmt -> bool) (l : list stmt) : nat := length (filter f l).
+
+(* measured facts about a net, compared with independent counts on the source (group "proc"):
+   goroutines, channels, defer-closed channels, range loops, then the capacities *)
+Definition net_counts (N : net) : list nat :=
+  [ length (procs_of N); length (caps N);
+    length (flat_map defer_close (procs_of N));
+    list_sum (map (fun p => count is_range (all_stmts p)) (procs_of N)) ] ++ caps N.
+
+(* every `SendOnce c` of the block comes after an `Io k` of the same loop iteration /
+   straight-line block (k = the read or write of the final acknowledgement) *)
+Definition is_io (k : iokind) (s : stmt) : bool :=
+  match s, k with
+  | Io RecvLine, RecvLine | Io WriteWire, WriteWire | Io PauseGate, PauseGate | Io FileIO, FileIO => true
+  | _, _ => false
+  end.
+Fixpoint afterS (k : iokind) (c : chan) (seen : bool) (s : stmt) : bool :=
+  match s with
+  | SendOnce c' => if Nat.eqb c c' then seen else true
+  | Sel cs =>
+      (fix fa (cs : list (alt * list stmt)) : bool :=
+         match cs with
+         | [] => true
+         | x :: r =>
+             (let (_, bd) := x in
+              (fix al (sn : bool) (l : list stmt) : bool :=
+                 match l with [] => true | y :: t => afterS k c sn y && al (sn || is_io k y) t end) seen bd)
+             && fa r
+         end) cs
+  | Branch a b =>
+      (fix al (sn : bool) (l : list stmt) : bool :=
+         match l with [] => true | y :: t => afterS k c sn y && al (sn || is_io k y) t end) seen a &&
+      (fix al (sn : bool) (l : list stmt) : bool :=
+         match l with [] => true | y :: t => afterS k c sn y && al (sn || is_io k y) t end) seen b
+  | LoopCtx bd | LoopRange _ bd | LoopData bd =>
+      (fix al (sn : bool) (l : list stmt) : bool :=
+         match l with [] => true | y :: t => afterS k c sn y && al (sn || is_io k y) t end) false bd
+  | _ => true
+  end.
+Fixpoint afterL (k : iokind) (c : chan) (seen : bool) (l : list stmt) : bool :=
+  match l with [] => true | y :: t => afterS k c seen y && afterL k c (seen || is_io k y) t end.
+
+(* every `RecvClose d` of the block sits in a select case guarded by a receive on c *)
+Fixpoint underS (c d : chan) (guarded : bool) (s : stmt) : bool :=
+  match s with
+  | RecvClose d' => if Nat.eqb d d' then guarded else true
+  | Sel cs =>
+      (fix fa (cs : list (alt * list stmt)) : bool :=
+         match cs with
+         | [] => true
+         | x :: r =>
+             (let (a, bd) := x in
+              (fix ul (gd : bool) (l : list stmt) : bool :=
+                 match l with [] => true | y :: t => underS c d gd y && ul gd t end)
+                (match a with RecvAlt c' => Nat.eqb c c' | _ => false end) bd)
+             && fa r
+         end) cs
+  | Branch a b =>
+      (fix ul (gd : bool) (l : list stmt) : bool :=
+         match l with [] => true | y :: t => underS c d gd y && ul gd t end) guarded a &&
+      (fix ul (gd : bool) (l : list stmt) : bool :=
+         match l with [] => true | y :: t => underS c d gd y && ul gd t end) guarded b
+  | LoopCtx bd | LoopRange _ bd | LoopData bd =>
+      (fix ul (gd : bool) (l : list stmt) : bool :=
+         match l with [] => true | y :: t => underS c d gd y && ul gd t end) guarded bd
+  | _ => true
+  end.
+Definition underL (c d : chan) (l : list stmt) : bool := forallb (underS c d false) l.
+
+(* success is signalled on `succ` by goroutine `acker` only, there only after an Io of kind k,
+   and `main` reads the digest (its only success return) only in the case that received succ *)
+Definition success_guarded (N : net) (succ digest : chan) (acker main : pid) (k : iokind) : bool :=
+  forallb (fun q => Nat.eqb q acker || Nat.eqb (count (is_sendonce succ) (all_stmts (info N q))) 0)
+          (seq 0 (nprocs N)) &&
+  Nat.ltb 0 (count (is_sendonce succ) (all_stmts (info N acker))) &&
+  afterL k succ false (body (info N acker)) &&
+  Nat.eqb (count (is_sendonce succ) (flatL (finally (info N acker)))) 0 &&
+  underL succ digest (body (info N main)) &&
+  Nat.ltb 0 (count (is_recvclose digest) (all_stmts (info N main))) &&
+  Nat.eqb (count (is_recvclose digest) (flatL (finally (info N main)))) 0.
 
 (* ------------------------------------------------------------------------------- *)
 (* the interleaving semantics *)
@@ -410,6 +521,13 @@ Inductive gstep : gstate -> gstate -> Prop :=
 Inductive reach : gstate -> Prop :=
 | reach_init : reach init
 | reach_step g g' : reach g -> gstep g g' -> reach g'.
+
+(* what is assumed about the Io operations, stated as what it is: a wire read returns (data,
+   stop or timeout - the latter only if the configured timeout is positive), wire writes,
+   file operations and the pause gate return *)
+Definition io_assumptions (timeout_pos : bool) : Prop :=
+  (timeout_pos = true -> io_ret RecvLine = true) /\
+  io_ret WriteWire = true /\ io_ret PauseGate = true /\ io_ret FileIO = true.
 
 (* n steps *)
 Inductive steps : nat -> gstate -> gstate -> Prop :=
